@@ -363,7 +363,14 @@ func (s *Store) CopyTo(dstFile StoreFile, flushEvery int) (res *Store, err error
 		numItems := 0
 		var errCopyItem error
 		err = srcColl.VisitItemsAscendEx(minItem.Key, true, func(i *Item, depth uint64) bool {
-			if errCopyItem = dstColl.SetItem(i); errCopyItem != nil {
+			// The destination gets its own copy: the source's reference
+			// count on i does not cover the destination store's use of it.
+			cp := &Item{
+				Key:      append([]byte{}, i.Key...),
+				Val:      append([]byte{}, i.Val...),
+				Priority: i.Priority,
+			}
+			if errCopyItem = dstColl.SetItem(cp); errCopyItem != nil {
 				return false
 			}
 			numItems++
